@@ -217,37 +217,9 @@ def _localise_crash(env, root, x_root, inplace, exc_type):
     return root
 
 
-class KnownRegion(Exception):
-    """The failure lies in the region of a recorded known finding."""
-
-    def __init__(self, fid):
-        super(KnownRegion, self).__init__(fid)
-        self.fid = fid
-
-
-def _known_inplace_region(env, b):
-    """Known findings C04-K1 / C04-K2: in-place evaluation through a field
-    (see known_findings.d/C04.json)."""
-    node = b.node
-    if node['op'] == 'comp' and env.info(node['a']['dom']).cat == 'field' \
-            and isinstance(b.obj, ex.OperatorComp):
-        return 'C04-K1'
-    if isinstance(b.obj, ex.OperatorRightScalarMult) and \
-            env.info(node['dom']).cat == 'field':
-        return 'C04-K2'
-    return None
-
-
-_aliasing_leaf = ex.aliases_input
-
-
 def known_region(types, tree):
     """Known finding whose region the tree lies in (None if none)."""
     for n in ex.tree_nodes(tree):
-        if n['op'] in ('addvec', 'addscal') and \
-                ex.tinfo(types, n['ran']).cat != 'field' and \
-                _aliasing_leaf(n['a']):
-            return 'C04-K4'
         if n['op'] in ('rscal', 'div') and n['a'].get('fk') == 'func' and \
                 n.get('how') == 'op' and \
                 ex.tinfo(types, n['dom']).cat == 'field' and \
@@ -256,7 +228,7 @@ def known_region(types, tree):
     return None
 
 
-def _call_guard(env, root, x, fn, inplace, strict=True):
+def _call_guard(env, root, x, fn, inplace):
     """Evaluate; an exception raised inside odl becomes a Violation keyed by
     the smallest failing sub-expression."""
     try:
@@ -268,10 +240,6 @@ def _call_guard(env, root, x, fn, inplace, strict=True):
         if where != 'odl':
             raise
         b = _localise_crash(env, root, x, inplace, type(e))
-        if inplace and not strict:
-            fid = _known_inplace_region(env, b)
-            if fid is not None:
-                raise KnownRegion(fid)
         raise Violation('C04|{}|{}|{}|{}|{}'.format(
             'call-inplace' if inplace else 'call', _crash_site(env, b),
             _region(env, b.node), type(e).__name__, csig.split('|')[-1]),
@@ -381,7 +349,7 @@ def _localise(env, root, x_root, depth, inplace=False):
     return root
 
 
-def _alias_sweep(env, root, x, depth, strict, whole_tree):
+def _alias_sweep(env, root, x, depth, whole_tree):
     """``y = x.copy(); r = e(y, out=y)`` for every (sub)expression ``e`` with
     domain == range, at the argument it receives inside the evaluation of
     the root at ``x``: ``r is y`` and the values are the interpreter's.
@@ -441,11 +409,7 @@ def _alias_sweep(env, root, x, depth, strict, whole_tree):
                 unsafe.add(id(b))
                 hit.append('alias-unsafe-leaf:' + node['kind'])
             continue
-        try:
-            r = _call_guard(env, b, xb, lambda: b.obj(y, out=y), True,
-                            strict=strict)
-        except KnownRegion:
-            continue
+        r = _call_guard(env, b, xb, lambda: b.obj(y, out=y), True)
         site = _cls(b.obj) + '._call(out=x)'
         if r is not y:
             raise Violation('C04|alias-inplace|{}|{}'.format(
@@ -599,12 +563,7 @@ def run_case(desc):
         if ran_is_space:
             out = env.set(ran).element()
             _fill_nan(out)
-            try:
-                y2 = _call_guard(env, root, x, lambda: expr(xe, out=out),
-                                 True, strict=bool(desc.get('strict')))
-            except KnownRegion as kr:
-                strata.append('excluded:' + kr.fid)
-                continue
+            y2 = _call_guard(env, root, x, lambda: expr(xe, out=out), True)
             if y2 is not out:
                 raise Violation('C04|inplace-identity|{}|{}'.format(
                     _site(root), reg), 'expr(x, out=y) is not y')
@@ -621,13 +580,11 @@ def run_case(desc):
         # domain == range (all of them at the first point, the root at the
         # others)
         try:
-            strata += _alias_sweep(env, root, x, depth,
-                                   bool(desc.get('strict')), i == 0)
+            strata += _alias_sweep(env, root, x, depth, i == 0)
         except Violation:
             if i != 0:
                 # key the failure by the smallest failing subtree
-                _alias_sweep(env, root, x, depth, bool(desc.get('strict')),
-                             True)
+                _alias_sweep(env, root, x, depth, True)
             raise
 
     # ---- is_linear => numerically linear ------------------------------------
